@@ -17,6 +17,7 @@ import (
 	"github.com/containers/nri-plugins/pkg/agent"
 	cfgapi "github.com/containers/nri-plugins/pkg/apis/config/v1alpha1"
 	"github.com/containers/nri-plugins/pkg/resmgr/cache"
+	"github.com/containers/nri-plugins/pkg/resmgr/events"
 	"github.com/containers/nri-plugins/pkg/resmgr/policy"
 	"github.com/containers/nri-plugins/pkg/sysfs"
 )
@@ -160,6 +161,14 @@ func (h *VerifHarness) UpdateConfig(cfg interface{}) (bool, error) {
 // Reconfigure calls the real reconfigure().
 func (h *VerifHarness) Reconfigure(cfg cfgapi.ResmgrConfig) error {
 	return h.m.reconfigure(cfg)
+}
+
+// PolicyEvent hands a policy event to the policy under the lock, the way an event
+// loop delivering *events.Policy would (processEvent at this commit drops them).
+func (h *VerifHarness) PolicyEvent(e *events.Policy) (bool, error) {
+	h.m.Lock()
+	defer h.m.Unlock()
+	return h.m.policy.HandleEvent(e)
 }
 
 // The NRI handlers, unchanged.
